@@ -872,6 +872,12 @@ def activeChan (w : World) (s : Nat) (connId : Option Nat) (ch : Nat) : Option C
   | some t => (match getConn w (sid s) t with | some c => c.chan ch | none => none)
   | none => none
 
+/-- `ActiveRequest::is_connected` -/
+def activeConnected (w : World) (s : Nat) (connId : Option Nat) (ch rid : Nat) : Bool :=
+  match activeChan w s connId ch with
+  | some x => x.hasState rid
+  | none => false
+
 /-- `ActiveRequest::finish`: `close_channel` on the response connection -/
 def activeFinish (w : World) (s : Nat) (connId : Option Nat) (ch rid : Nat) : World :=
   match respondTarget w s connId with
@@ -890,10 +896,7 @@ def serverReceive (w : World) (s : Nat) : Nat → World × Option RecvRes
     | (w, .some h m) =>
       match connIdOf (sndConns w (sid s)) (cid m.client) 0 with
       | some i =>
-        let connected := match activeChan w s (some i) m.channel with
-          | some x => x.hasState m.rid
-          | none => false
-        if !w.cfg.ff && !connected then
+        if !w.cfg.ff && !activeConnected w s (some i) m.channel m.rid then
           -- the `ActiveRequest` is dropped again: `release_offset`, `finish`
           let w := rcvRelease w (sid s) h
           let w := activeFinish w s (some i) m.channel m.rid
@@ -931,32 +934,47 @@ def updActive (w : World) (s a : Nat) (f : Active → Active) : World :=
   | some V => setSv w s { V with actives := V.actives.map fun x => if x.label = a then f x else x }
   | none => w
 
-/-- `Client::new` -/
-def opCClient (w : World) (c : Nat) (ma : Option Nat) : World × String :=
-  if (getCl w c).isSome then (w, "dup") else
-  let active := match ma with | some m => clamp1 m | none => w.cfg.maxActive
-  if w.cfg.maxActive < active then (w, "err:MaxActiveRequestsExceedsMaxSupportedActiveRequestsOfService") else
+/-- the records of a port that never got registered are removed again -/
+def delPort (w : World) (p : Pid) : World :=
+  { w with snds := AMap.del w.snds p, rcvs := AMap.del w.rcvs p, snaps := AMap.del w.snaps p }
+
+def regSnap (r : Reg (Nat × Nat)) : Snap := { ctr := r.counter, slots := r.slots }
+
+/-- the request `Sender` of a new client with `n` chunks -/
+def clientSnd (w : World) (n : Nat) : Snd :=
+  { n := n, free := List.range n, rc := List.replicate n 0,
+    maxLoans := w.cfg.maxLoans + w.cfg.maxActive + w.cfg.maxActive,
+    conns := List.replicate w.cfg.maxServers none, nChan := 1, init := .id 0 false,
+    overflow := w.cfg.ovReq, rMaxBorrow := w.cfg.maxActive }
+
+/-- the response `Receiver` of a new client -/
+def clientRcv (w : World) : Rcv :=
+  { conns := List.replicate w.cfg.maxServers none,
+    storage := SlotMap.init (w.cfg.cExpired + w.cfg.maxServers), tbrCap := w.cfg.cExpired,
+    nChan := w.cfg.nChannels, init := .closed, cap := w.cfg.respBuf,
+    overflow := w.cfg.ovResp, maxBorrow := w.cfg.maxBorrow }
+
+/-- `Client::new` once the requested limit is accepted: ports, connections, registration -/
+def clientCreate (w : World) (c active : Nat) : World × String :=
   let n := w.cfg.clientChunks w.cfg.maxLoans active
-  let S : Snd := { n := n, free := List.range n, rc := List.replicate n 0,
-                   maxLoans := w.cfg.maxLoans + w.cfg.maxActive + w.cfg.maxActive,
-                   conns := List.replicate w.cfg.maxServers none, nChan := 1, init := .id 0 false,
-                   overflow := w.cfg.ovReq, rMaxBorrow := w.cfg.maxActive }
-  let R : Rcv := { conns := List.replicate w.cfg.maxServers none,
-                   storage := SlotMap.init (w.cfg.cExpired + w.cfg.maxServers), tbrCap := w.cfg.cExpired,
-                   nChan := w.cfg.nChannels, init := .closed, cap := w.cfg.respBuf,
-                   overflow := w.cfg.ovResp, maxBorrow := w.cfg.maxBorrow }
-  let sp : Snap := { ctr := w.serverReg.counter, slots := w.serverReg.slots }
-  let w1 := clientForceUpdate (setSnap (setRcv (setSnd w (cid c) S) (cid c) R) (cid c) sp) c
+  let w1 := clientForceUpdate
+    (setSnap (setRcv (setSnd w (cid c) (clientSnd w n)) (cid c) (clientRcv w)) (cid c) (regSnap w.serverReg)) c
   match w1.clientReg.add (c, n) with
   | some (reg, slot) =>
     -- the record of the `Client` object and its shared state
-    let C : Client := { maxActive := active, chanIds := List.range n, slot := slot }
-    finishPanic w ({ setCl w1 c C with clientReg := reg }, "ok")
+    finishPanic w ({ setCl w1 c { maxActive := active, chanIds := List.range n, slot := slot } with clientReg := reg }, "ok")
   | none =>
     -- the port is dropped again: its connections are closed, nothing else remains
-    let w2 := portDestroy w1 (cid c)
-    finishPanic w ({ w2 with snds := AMap.del w2.snds (cid c), rcvs := AMap.del w2.rcvs (cid c), snaps := AMap.del w2.snaps (cid c) },
-                   "err:ExceedsMaxSupportedClients")
+    finishPanic w (delPort (portDestroy w1 (cid c)) (cid c), "err:ExceedsMaxSupportedClients")
+
+def clientActive (w : World) (ma : Option Nat) : Nat :=
+  match ma with | some m => clamp1 m | none => w.cfg.maxActive
+
+/-- `Client::new` -/
+def opCClient (w : World) (c : Nat) (ma : Option Nat) : World × String :=
+  if (getCl w c).isSome then (w, "dup") else
+  if w.cfg.maxActive < clientActive w ma then (w, "err:MaxActiveRequestsExceedsMaxSupportedActiveRequestsOfService") else
+  clientCreate w c (clientActive w ma)
 
 def opDClient (w : World) (c : Nat) : World × String :=
   match getCl w c with
@@ -965,29 +983,33 @@ def opDClient (w : World) (c : Nat) : World × String :=
     if !C.alive then (w, "none") else
     (clientDestroyIfUnreferenced (setCl w c { C with alive := false }) c, "ok")
 
+/-- the response `Sender` of a new server with `n` chunks -/
+def serverSnd (w : World) (n lpr : Nat) : Snd :=
+  { n := n, free := List.range n, rc := List.replicate n 0,
+    maxLoans := lpr * w.cfg.maxActive * w.cfg.maxClients,
+    conns := List.replicate w.cfg.maxClients none, nChan := w.cfg.nChannels, init := .closed,
+    overflow := w.cfg.ovResp, rMaxBorrow := w.cfg.maxBorrow }
+
+/-- the request `Receiver` of a new server -/
+def serverRcv (w : World) : Rcv :=
+  { conns := List.replicate w.cfg.maxClients none,
+    storage := SlotMap.init (w.cfg.sExpired + w.cfg.maxClients), tbrCap := w.cfg.sExpired,
+    nChan := 1, init := .id 0 false, cap := w.cfg.maxActive,
+    overflow := w.cfg.ovReq, maxBorrow := w.cfg.maxActive }
+
+def serverLoanPerReq (w : World) (ml : Option Nat) : Nat :=
+  match ml with | some m => clamp1 m | none => w.cfg.defLoanPerReq
+
 /-- `Server::new` -/
 def opCServer (w : World) (s : Nat) (ml : Option Nat) : World × String :=
   if (getSv w s).isSome then (w, "dup") else
-  let lpr := match ml with | some m => clamp1 m | none => w.cfg.defLoanPerReq
+  let lpr := serverLoanPerReq w ml
   let n := w.cfg.serverChunks lpr
-  let S : Snd := { n := n, free := List.range n, rc := List.replicate n 0,
-                   maxLoans := lpr * w.cfg.maxActive * w.cfg.maxClients,
-                   conns := List.replicate w.cfg.maxClients none, nChan := w.cfg.nChannels, init := .closed,
-                   overflow := w.cfg.ovResp, rMaxBorrow := w.cfg.maxBorrow }
-  let R : Rcv := { conns := List.replicate w.cfg.maxClients none,
-                   storage := SlotMap.init (w.cfg.sExpired + w.cfg.maxClients), tbrCap := w.cfg.sExpired,
-                   nChan := 1, init := .id 0 false, cap := w.cfg.maxActive,
-                   overflow := w.cfg.ovReq, maxBorrow := w.cfg.maxActive }
-  let sp : Snap := { ctr := w.clientReg.counter, slots := w.clientReg.slots }
-  let w1 := serverForceUpdate (setSnap (setRcv (setSnd w (sid s) S) (sid s) R) (sid s) sp) s
+  let w1 := serverForceUpdate
+    (setSnap (setRcv (setSnd w (sid s) (serverSnd w n lpr)) (sid s) (serverRcv w)) (sid s) (regSnap w.clientReg)) s
   match w1.serverReg.add (s, n) with
-  | some (reg, slot) =>
-    let V : Server := { loanPerReq := lpr, slot := slot }
-    finishPanic w ({ setSv w1 s V with serverReg := reg }, "ok")
-  | none =>
-    let w2 := portDestroy w1 (sid s)
-    finishPanic w ({ w2 with snds := AMap.del w2.snds (sid s), rcvs := AMap.del w2.rcvs (sid s), snaps := AMap.del w2.snaps (sid s) },
-                   "err:ExceedsMaxSupportedServers")
+  | some (reg, slot) => finishPanic w ({ setSv w1 s { loanPerReq := lpr, slot := slot } with serverReg := reg }, "ok")
+  | none => finishPanic w (delPort (portDestroy w1 (sid s)) (sid s), "err:ExceedsMaxSupportedServers")
 
 def opDServer (w : World) (s : Nat) : World × String :=
   match getSv w s with
@@ -995,6 +1017,10 @@ def opDServer (w : World) (s : Nat) : World × String :=
   | some S =>
     if !S.alive then (w, "none") else
     (serverDestroyIfUnreferenced (setSv w s { S with alive := false }) s, "ok")
+
+/-- a `PendingResponse` comes into being -/
+def Client.addPending (C : Client) (P : Pending) : Client :=
+  { C with activeCnt := C.activeCnt + 1, pendings := C.pendings ++ [P], usedLabels := P.label :: C.usedLabels }
 
 /-- `RequestMut::send` -> `ClientSharedState::send_request` once the limit check has passed:
 `update_connections`, `prepare_channel_to_receive_responses`, `deliver_offset` -/
@@ -1005,8 +1031,7 @@ def sendRequest (w : World) (c r ch rid chunk tag : Nat) : World × String :=
   match getCl w c with
   | some C =>
     -- the `PendingResponse` (kept by the caller under label `r`)
-    let P : Pending := { label := r, rid := rid, channel := ch, chunk := chunk, tag := tag }
-    let w := setCl w c { C with activeCnt := C.activeCnt + 1, pendings := C.pendings ++ [P], usedLabels := r :: C.usedLabels }
+    let w := setCl w c (C.addPending { label := r, rid := rid, channel := ch, chunk := chunk, tag := tag })
     let w := rcvMapAll w (cid c) ch (fun x => x.setState rid)
     let w := retrieveReturned w (cid c)
     let msg : Msg := { client := c, channel := ch, rid := rid, tag := tag }
@@ -1062,20 +1087,34 @@ def opRecvReq (w : World) (s a : Nat) : World × String :=
          s!"some:{h.origin.n}:{m.tag}")
       | none => (w1, "none")
 
+/-- ghost: the shared state of client `c` is gone -/
+def clientGone (w : World) (c : Nat) : Bool :=
+  match getCl w c with | some C => !C.ex | none => true
+
+/-- the response chunk: header with the request id of the active request, the payload, ghost fields -/
+def responseMsg (w : World) (s : Nat) (A : Active) (tag : Nat) : Msg :=
+  { rid := A.msg.rid, server := s, tag := tag, gClient := A.msg.client, gSeq := A.gSent,
+    gStale := clientGone w A.msg.client }
+
+/-- `deliver_offset_to_connection` starts with `retrieve_returned_chunks` -/
+def respondRetrieve (w : World) (s : Nat) (connId : Option Nat) : World :=
+  match connId with | some _ => retrieveReturned w (sid s) | none => w
+
+/-- `deliver_offset_to_connection` for the connection slot of the active request -/
+def respondDeliver (w : World) (s : Nat) (A : Active) (e : Entry) : World :=
+  let w := respondRetrieve w s A.connId
+  match respondTarget w s A.connId with
+  | some t => (deliverTo w (sid s) t A.msg.channel e).1
+  | none => w
+
 /-- `ResponseMut::send` and the drop of the `ResponseMut` -/
 def sendResponse (w : World) (s : Nat) (A : Active) (chunk tag : Nat) : World × String :=
-  let w0 := w
-  let w := serverUpdate w s
-  if w.panicked then ({ w0 with panicked := true }, "PANIC") else
-  let stale := match getCl w A.msg.client with | some C => !C.ex | none => true
-  let msg : Msg := { rid := A.msg.rid, server := s, tag := tag, gClient := A.msg.client, gSeq := A.gSent, gStale := stale }
-  let w := match A.connId with | some _ => retrieveReturned w (sid s) | none => w
-  let w := match respondTarget w s A.connId with
-    | some t => (deliverTo w (sid s) t A.msg.channel { chunk := chunk, msg := msg }).1
-    | none => w
-  -- the `ResponseMut` is dropped
-  let w := updActive w s A.label fun x => { x with loans := x.loans - 1, gSent := x.gSent + 1 }
-  (sndReturnLoan w (sid s) chunk, "ok")
+  let w1 := serverUpdate w s
+  if w1.panicked then ({ w with panicked := true }, "PANIC") else
+  -- the counters of the active request: one more response sent, the loan of the `ResponseMut` ends
+  let w2 := updActive w1 s A.label fun x => { x with loans := x.loans - 1, gSent := x.gSent + 1 }
+  let w3 := respondDeliver w2 s A { chunk := chunk, msg := responseMsg w1 s A tag }
+  (sndReturnLoan w3 (sid s) chunk, "ok")
 
 /-- `ActiveRequest::loan_uninit` + `write_payload` + `ResponseMut::send` -/
 def opRespond (w : World) (s a tag : Nat) : World × String :=
@@ -1128,7 +1167,7 @@ def opRecvResp (w : World) (c r : Nat) : World × String :=
         | none => (w1, "none")
         | some C =>
           (setCl w1 c { C with held := C.held ++ [h],
-                               pendings := C.pendings.map fun x => if x.label = r then { x with gRecv := x.gRecv ++ [m] } else x },
+                               pendings := C.pendings.map fun x => if x.rid = P.rid then { x with gRecv := x.gRecv ++ [m] } else x },
            s!"some:{h.origin.n}:{m.tag}")
 
 /-- a `Response` is dropped -/
@@ -1143,6 +1182,11 @@ def opDResp (w : World) (c k : Nat) : World × String :=
       let w := rcvRelease w (cid c) h
       (clientDestroyIfUnreferenced w c, "ok")
 
+/-- a `PendingResponse` goes: counter, pending list, the channel id is returned -/
+def Client.dropPending (C : Client) (P : Pending) : Client :=
+  { C with activeCnt := C.activeCnt - 1, pendings := C.pendings.filter (fun x => x.label ≠ P.label),
+           chanIds := C.chanIds ++ [P.channel] }
+
 /-- `PendingResponse::drop`: counter, `close`; then the `RequestMut`: `release_request`, `return_loaned_chunk` -/
 def opDPending (w : World) (c r : Nat) : World × String :=
   match getCl w c with
@@ -1152,8 +1196,7 @@ def opDPending (w : World) (c r : Nat) : World × String :=
     | none => (w, "none")
     | some P =>
       let w := rcvMapAll w (cid c) P.channel (fun x => x.close P.rid)
-      let w := setCl w c { C with activeCnt := C.activeCnt - 1, pendings := C.pendings.filter (·.label ≠ r),
-                                  chanIds := C.chanIds ++ [P.channel] }
+      let w := setCl w c (C.dropPending P)
       let w := sndReturnLoan w (cid c) P.chunk
       (clientDestroyIfUnreferenced w c, "ok")
 
@@ -1175,9 +1218,7 @@ def opAConnected (w : World) (s a : Nat) : World × String :=
     match findActive V a with
     | none => (w, "none")
     | some A =>
-      (w, match activeChan w s A.connId A.msg.channel with
-          | some x => if x.hasState A.msg.rid then "true" else "false"
-          | none => "false")
+      (w, if activeConnected w s A.connId A.msg.channel A.msg.rid then "true" else "false")
 
 /-- `PendingResponse::set_disconnect_hint` -/
 def opHint (w : World) (c r : Nat) : World × String :=
